@@ -88,6 +88,10 @@ def gen_opts(rng, model):
     if rng.random() < 0.2:
         opts["terms"] = True
         names.append("terms")
+    if rng.random() < 0.12:
+        opts["collapse"] = rng.choice(["n", "id"])
+        opts["collapse_limit"] = rng.choice([1, 1, 2])
+        names.append("collapse")
     return opts, tuple(names)
 
 
